@@ -104,10 +104,14 @@ pub fn bind_next(
                         return new_loc_err(Error::OutOfListBounds{index: n});
                     }
 
-                    let lhs_val = &mut lock_deref!(items)[n as usize];
+                    // We apply the operation to a copy of the item, so that
+                    // the list isn't locked if it's also an operand.
+                    let mut lhs_val = lock_deref!(items)[n as usize].clone();
 
-                    binary_operation_assign(lhs_val, rhs, op)
+                    binary_operation_assign(&mut lhs_val, rhs, op)
                         .context(BinOpAssignListIndexFailed)?;
+
+                    lock_deref!(items)[n as usize] = lhs_val;
 
                     Ok(())
                 },
